@@ -291,8 +291,11 @@ def _run(case, fs, amb):
             if fault is not None and not fired:
                 bump(f'fault_not_fired:{fault["kind"]}')
             state = ('c' if compiled else 'u') + ('e' if evaluated else '-')
-            log.append([seq, 'persist', path, fired, out, fs.raw_writes,
-                        fs.bytes_written])
+            # byte counts stay out of the event log: the pickled order of a
+            # set (hash order) changes the compressed size, not the meaning
+            log.append([seq, 'persist', path, fired, out])
+            bump('raw_writes', fs.raw_writes)
+            bump('bytes_written', fs.bytes_written)
             sig.append(f'p{int(is_gz_path(path))}{state}'
                        f'{fired[0][:7] if fired else ""}')
             fs.reset_op()
